@@ -174,3 +174,293 @@ Proof.
                 | destruct (Hn2 _ eq_refl) as [A B]; rewrite A, B; reflexivity
                 | destruct (lk_ntest c || lk_ncall c); congruence ].
 Qed.
+
+Lemma reach_ctl : forall c h0 sc s, reach c h0 sc s -> ctl c s.
+Proof. intros c h0 sc s H. eapply reach_invariant; eauto using ctl_init, ctl_step. Qed.
+
+(** * Exclusion and re-opening *)
+Definition session_call (cl : call) : bool :=
+  match cl with CCreate | CProcessKey _ | CGetContext _ | CFind _ => true | _ => false end.
+
+(** while a worker exists the maintenance flag is set *)
+Lemma maint_flag_holds : forall c h0 sc s, reach c h0 sc s -> working s = true -> mm s = true.
+Proof. intros c h0 sc s H Hw. apply (ctl_mm c s (reach_ctl _ _ _ _ H)). left; exact Hw. Qed.
+
+(** [excl]: while the worker is running (future not ready) every session operation
+    is refused: the call returns 0/False in one step, without touching the sessions *)
+Lemma excl_holds : forall c h0 sc s cl rest,
+  reach c h0 sc s -> working s = true ->
+  cpcs s = CIdle -> script s = cl :: rest -> session_call cl = true ->
+  exists s' r, step c s Client = Some s' /\ log s' = ERet r 0 :: log s /\
+               sessions s' = sessions s /\ cpcs s' = CIdle /\ accepted_pc (cpcs s') = false.
+Proof.
+  intros c h0 sc s cl rest Hr Hw Hc Hs Hcl.
+  pose proof (maint_flag_holds _ _ _ _ Hr Hw) as Hm.
+  assert (Hd : forall l, disabled (set_script l s) = true).
+  { intros l. change (disabled (set_script l s)) with (disabled s).
+    unfold disabled, is_maint. rewrite Hm, Hw. apply orb_true_r. }
+  unfold step, step_client. rewrite Hc, Hs.
+  destruct cl; try discriminate Hcl; unfold step_call, get_session.
+  - rewrite Hd. eexists _, _. split; [reflexivity|]. cbn. rewrite ?Hc. repeat split; reflexivity.
+  - rewrite Hd. eexists _, _. split; [reflexivity|]. cbn. rewrite ?Hc. repeat split; reflexivity.
+  - rewrite Hd. eexists _, _. split; [reflexivity|]. cbn. rewrite ?Hc. repeat split; reflexivity.
+  - destruct (sid_of (set_script rest s) n); [|rewrite Hd];
+      eexists _, _; (split; [reflexivity|]); cbn; rewrite ?Hc; repeat split; reflexivity.
+Qed.
+
+(** a session operation is never in progress while a worker thread exists *)
+Lemma session_op_excl_holds : forall c h0 sc s,
+  reach c h0 sc s -> accepted_pc (cpcs s) = true -> wpcs s = None /\ working s = false.
+Proof.
+  intros c h0 sc s Hr Ha. pose proof (reach_ctl _ _ _ _ Hr) as HC.
+  pose proof (ctl_acc c s HC Ha) as Hn. split; [exact Hn|].
+  pose proof (ctl_wk c s HC) as Hwk. rewrite Hn in Hwk. unfold working. destruct Hwk as [E|E]; rewrite E; reflexivity.
+Qed.
+
+(** [reopens]: once the future is ready (or joined) session operations are accepted again *)
+Lemma reopens_accept : forall c h0 sc s cl rest,
+  reach c h0 sc s -> working s = false ->
+  cpcs s = CIdle -> script s = cl :: rest -> session_call cl = true ->
+  (forall n, cl = CFind n -> sid_of s n <> 0) ->
+  exists s', step c s Client = Some s' /\ log s' = EAccept :: log s /\ accepted_pc (cpcs s') = true.
+Proof.
+  intros c h0 sc s cl rest Hr Hw Hc Hs Hcl Hf.
+  pose proof (ctl_started c s (reach_ctl _ _ _ _ Hr)) as Hst.
+  assert (Hd : forall l, disabled (set_script l s) = false).
+  { intros l. change (disabled (set_script l s)) with (disabled s).
+    unfold disabled, is_maint. rewrite Hst, Hw. cbn. apply andb_false_r. }
+  unfold step, step_client. rewrite Hc, Hs.
+  destruct cl; try discriminate Hcl; unfold step_call, get_session.
+  - rewrite Hd. eexists. split; [reflexivity|]. cbn. repeat split; reflexivity.
+  - rewrite Hd. eexists. split; [reflexivity|]. cbn. repeat split; reflexivity.
+  - rewrite Hd. eexists. split; [reflexivity|]. cbn. repeat split; reflexivity.
+  - specialize (Hf n eq_refl). change (sid_of (set_script rest s) n) with (sid_of s n).
+    destruct (sid_of s n); [congruence|]. rewrite Hd. eexists. split; [reflexivity|]. cbn. repeat split; reflexivity.
+Qed.
+
+Lemma reopens_create : forall c s,
+  cpcs s = CCreate1 ->
+  exists s', step c s Client = Some s' /\ cpcs s' = CIdle /\
+             log s' = ERet RCreate (S (next_sid s)) :: log s /\ In (S (next_sid s)) (sessions s').
+Proof.
+  intros c s Hc. unfold step, step_client. rewrite Hc. eexists. split; [reflexivity|]. cbn. repeat split; try reflexivity. left; reflexivity.
+Qed.
+
+(** * Tasks: conservation and at-most-once *)
+Definition body_task (w : option wpc) : list nat := match w with Some (WBody t _) => [t] | _ => [] end.
+Definition all_tasks (s : state) : list nat :=
+  execs (log s) ++ body_task (wpcs s) ++ map fst (queue s).
+
+Record tasks_inv (s : state) : Prop := {
+  ti_nodup : NoDup (all_tasks s);
+  ti_lt : forall t, In t (all_tasks s) -> t < next_task s;
+  ti_sched : forall t, In t (scheds (log s)) <-> In t (all_tasks s)
+}.
+
+Lemma tasks_init : forall h0 sc, tasks_inv (init h0 sc).
+Proof. intros. constructor; cbn; [constructor|intros t []|intros t; tauto]. Qed.
+
+Lemma execs_app : forall a b, execs (a ++ b) = execs a ++ execs b.
+Proof. intros; unfold execs; apply flat_map_app. Qed.
+
+Lemma tasks_push : forall (E B : list nat) (Q : list task) n b,
+  NoDup (E ++ B ++ map fst Q) -> (forall t, In t (E ++ B ++ map fst Q) -> t < n) ->
+  NoDup (E ++ B ++ map fst (Q ++ [(n, b)])) /\
+  (forall t, In t (E ++ B ++ map fst (Q ++ [(n, b)])) <-> n = t \/ In t (E ++ B ++ map fst Q)).
+Proof.
+  intros E B Q n b Hnd Hlt.
+  assert (Eq : E ++ B ++ map fst (Q ++ [(n, b)]) = (E ++ B ++ map fst Q) ++ [n]).
+  { rewrite map_app. cbn. rewrite !app_assoc. reflexivity. }
+  rewrite Eq. split.
+  - eapply Permutation_NoDup; [apply Permutation_cons_append|].
+    constructor; [|exact Hnd]. intros Hin. specialize (Hlt _ Hin). lia.
+  - intros t. rewrite in_app_iff. cbn. tauto.
+Qed.
+
+Lemma tasks_step : forall c s t s', ctl c s -> tasks_inv s -> step c s t = Some s' -> tasks_inv s'.
+Proof.
+  intros c s t s' HC [Hnd Hlt Hsc] H. unfold all_tasks in *.
+  destruct t; step_unfold H.
+  - split_step H; finish_step H; try (destruct rs); constructor; unfold all_tasks;
+      cbn -[execs scheds]; try (match goal with E : queue _ = _ |- _ => rewrite E end);
+      try exact Hnd; try exact Hlt; try exact Hsc;
+      try (destruct (tasks_push _ _ _ _ b Hnd Hlt) as [P1 P2];
+           first [ exact P1
+                 | intros t Ht; apply P2 in Ht; destruct Ht as [<-|Ht]; [lia|specialize (Hlt _ Ht); lia]
+                 | intros t; rewrite P2; change (scheds (ESched (next_task s) :: log s)) with (next_task s :: scheds (log s));
+                   cbn [In]; rewrite Hsc; tauto ]);
+      try (rewrite (ctl_sw c s HC) in Hnd, Hlt, Hsc by (rewrite E; reflexivity);
+           first [exact Hnd | exact Hlt | exact Hsc]).
+  - destruct (wpcs s) as [p|] eqn:Ew; [|discriminate].
+    destruct p as [|m [| |]| | | | | |]; unfold free_for, release_w in H;
+      split_step H; finish_step H; constructor; unfold all_tasks; cbn -[execs scheds] in *;
+      try (match goal with E : queue _ = _ |- _ => rewrite E in * end);
+      try exact Hnd; try exact Hlt; try exact Hsc;
+      change (execs (EExec t :: log s)) with (t :: execs (log s));
+      change (scheds (EExec t :: log s)) with (scheds (log s)).
+    + eapply Permutation_NoDup; [|exact Hnd]. apply Permutation_sym, Permutation_middle.
+    + intros t0 Ht0. apply Hlt. eapply Permutation_in; [|exact Ht0]. apply Permutation_middle.
+    + intros t0. rewrite Hsc. split; intros Ht0; (eapply Permutation_in; [|exact Ht0]);
+        [apply Permutation_sym|]; apply Permutation_middle.
+Qed.
+
+Lemma reach_tasks : forall c h0 sc s, reach c h0 sc s -> tasks_inv s.
+Proof.
+  intros c h0 sc s H.
+  assert (ctl c s /\ tasks_inv s) as [_ HT]; [|exact HT].
+  eapply reach_invariant with (P := fun s => ctl c s /\ tasks_inv s); eauto.
+  - split; [apply ctl_init|apply tasks_init].
+  - intros s0 t s1 [A B] Hs. split; [eapply ctl_step|eapply tasks_step]; eauto.
+Qed.
+
+Lemma NoDup_app_l : forall (A : Type) (l l' : list A), NoDup (l ++ l') -> NoDup l.
+Proof.
+  intros A l l'. induction l' as [|a l' IH]; intros H.
+  - rewrite app_nil_r in H. exact H.
+  - apply IH. eapply NoDup_remove_1; exact H.
+Qed.
+
+(** [task_at_most_once]: no task id is executed twice, and only scheduled tasks are executed *)
+Lemma task_at_most_once_holds : forall c h0 sc s, reach c h0 sc s ->
+  NoDup (execs (log s)) /\ (forall t, In t (execs (log s)) -> In t (scheds (log s))).
+Proof.
+  intros c h0 sc s H. destruct (reach_tasks _ _ _ _ H) as [Hnd _ Hsc]. unfold all_tasks in *. split.
+  - eapply NoDup_app_l; exact Hnd.
+  - intros t Ht. apply Hsc. apply in_or_app; left; exact Ht.
+Qed.
+
+(** conservation: a scheduled task is executed, being executed, or still queued *)
+Lemma task_conserved_holds : forall c h0 sc s t, reach c h0 sc s -> In t (scheds (log s)) ->
+  In t (execs (log s)) \/ body_task (wpcs s) = [t] \/ In t (map fst (queue s)).
+Proof.
+  intros c h0 sc s t H Ht. destruct (reach_tasks _ _ _ _ H) as [_ _ Hsc]. apply Hsc in Ht.
+  unfold all_tasks in Ht. rewrite !in_app_iff in Ht. destruct Ht as [A|[A|A]]; auto.
+  right; left. destruct (wpcs s) as [[]|]; cbn in *; try contradiction. destruct A as [<-|[]]. reflexivity.
+Qed.
+
+(** * The handler is never called empty when Notify tests it inside the lock and
+    ClearNotificationHandler takes the lock *)
+Record nb_inv (s : state) : Prop := {
+  nb_n3 : forall m, wpcs s = Some (WN m N3) -> handler s = true;
+  nb_log : ~ In EBadCall (log s);
+  nb_thr : wpcs s <> Some WThrow
+}.
+
+Lemma nb_init : forall h0 sc, nb_inv (init h0 sc).
+Proof. intros. constructor; cbn; try discriminate; auto. Qed.
+
+Lemma nb_step : forall c s t s', lk_ntest c = true -> lk_clear c = true ->
+  ctl c s -> nb_inv s -> step c s t = Some s' -> nb_inv s'.
+Proof.
+  intros c s t s' Hnt Hcl HC [Hn3 Hlog Hthr] H.
+  destruct t; step_unfold H.
+  - split_step H; finish_step H; try (destruct rs); constructor; cbn in *;
+      try assumption; try discriminate; try (intros m; discriminate);
+      try (intros [X|X]; [discriminate X|exact (Hlog X)]);
+      try (intros; reflexivity).
+    (* CSetHandler false *)
+    intros m Hm. exfalso. unfold free_for in *. rewrite Hcl in *. cbn in *.
+    pose proof (ctl_mx c s HC) as Hmx. rewrite Hm in Hmx. cbn in Hmx. rewrite Hnt in Hmx. cbn in Hmx.
+    rewrite Hmx in *. discriminate.
+  - destruct (wpcs s) as [p|] eqn:Ew; [|discriminate].
+    destruct p as [|m [| |]| | | | | |]; unfold free_for, release_w in H; rewrite ?Hnt in H;
+      split_step H; finish_step H; constructor; cbn in *;
+      try assumption; try discriminate; try (intros m0; discriminate);
+      try (intros [X|X]; [discriminate X|exact (Hlog X)]);
+      try (intros; assumption);
+      try (exfalso; destruct (ctl_n2 c s HC m Ew) as [A _]; congruence);
+      try (exfalso; rewrite (Hn3 m eq_refl) in *; discriminate);
+      try (exfalso; apply Hthr; reflexivity);
+      try (exfalso; specialize (Hn3 m eq_refl); discriminate).
+Qed.
+
+(** * Draining: when the worker has passed its last HasPendingTasks test, every task
+    scheduled before the start of that worker has been executed *)
+Definition past_check (w : option wpc) : bool :=
+  match w with None | Some WRet | Some WFin => true | _ => false end.
+
+Record drain_inv (s : state) : Prop := {
+  dr_thr : wpcs s = Some WThrow -> In EBadCall (log s);
+  dr_main : In EBadCall (log s) \/
+            (past_check (wpcs s) = true ->
+             forall t, In t (scheds (before_last_spawn (log s))) -> In t (execs (log s)))
+}.
+
+Lemma drain_init : forall h0 sc, drain_inv (init h0 sc).
+Proof. intros. constructor; cbn; [discriminate|]. right. intros _ t []. Qed.
+
+Lemma drain_step : forall c s t s', ctl c s -> tasks_inv s -> drain_inv s -> step c s t = Some s' -> drain_inv s'.
+Proof.
+  intros c s t s' HC HT [Hthr Hmain] H.
+  destruct t; step_unfold H.
+  - split_step H; finish_step H; try (destruct rs); constructor; cbn -[execs scheds] in *;
+      try assumption; try discriminate;
+      try (intros X; right; exact (Hthr X));
+      try (destruct Hmain as [L|R]; [left; right; exact L|right; exact R]);
+      try (destruct Hmain as [L|R]; [left; right; exact L|right; intros; discriminate]).
+  - destruct (wpcs s) as [p|] eqn:Ew; [|discriminate].
+    destruct p as [|m [| |]| | | | | |]; unfold free_for, release_w in H;
+      split_step H; finish_step H; constructor; cbn -[execs scheds] in *;
+      try assumption; try discriminate; try (intros; discriminate);
+      try (intros X; right; exact (Hthr X));
+      try (destruct Hmain as [L|R]; [left; right; exact L|right; exact R]);
+      try (destruct Hmain as [L|R]; [left; exact L|right; intros; discriminate]);
+      try (destruct Hmain as [L|R]; [left; right; exact L|right; intros; discriminate]);
+      try (intros _; left; reflexivity);
+      try (left; apply Hthr; reflexivity).
+    (* WHasP with an empty queue: everything scheduled so far has been executed *)
+    right. intros _ t Ht.
+    destruct HT as [_ _ Hsc]. unfold all_tasks in Hsc. rewrite Ew, E in Hsc. cbn -[execs scheds] in Hsc.
+    rewrite app_nil_r in Hsc. apply Hsc.
+    clear - Ht. induction (log s) as [|e l IH]; cbn -[scheds] in *; [contradiction|].
+    destruct e; cbn in *; auto.
+Qed.
+
+Lemma reach_all : forall c h0 sc s, reach c h0 sc s -> ctl c s /\ tasks_inv s /\ drain_inv s.
+Proof.
+  intros c h0 sc s H.
+  eapply reach_invariant with (P := fun s => ctl c s /\ tasks_inv s /\ drain_inv s); eauto.
+  - split; [apply ctl_init|split; [apply tasks_init|apply drain_init]].
+  - intros s0 t s1 (A & B & C) Hs. split; [eapply ctl_step; eauto|split; [eapply tasks_step; eauto|eapply drain_step; eauto]].
+Qed.
+
+(** [task_not_lost]: when the service reports that maintenance is over (IsWorking() is
+    false, so is_maintenance_mode() returns False and join returns), every task that was
+    scheduled before the last worker was started has been executed - provided no
+    notification call threw (see [no_bad_call_holds]). *)
+Lemma task_not_lost_holds : forall c h0 sc s t,
+  reach c h0 sc s -> ~ In EBadCall (log s) -> working s = false ->
+  In t (scheds (before_last_spawn (log s))) -> In t (execs (log s)).
+Proof.
+  intros c h0 sc s t Hr Hnb Hw Ht. destruct (reach_all _ _ _ _ Hr) as (HC & _ & [_ Hm]).
+  destruct Hm as [L|R]; [contradiction|]. apply R; [|exact Ht].
+  rewrite (working_wk s (ctl_wk c s HC) Hw). reflexivity.
+Qed.
+
+Lemma reach_nb : forall c h0 sc s, lk_ntest c = true -> lk_clear c = true -> reach c h0 sc s -> nb_inv s.
+Proof.
+  intros c h0 sc s A B H.
+  assert (ctl c s /\ nb_inv s) as [_ X]; [|exact X].
+  eapply reach_invariant with (P := fun s => ctl c s /\ nb_inv s); eauto.
+  - split; [apply ctl_init|apply nb_init].
+  - intros s0 t s1 [C D] Hs. split; [eapply ctl_step|eapply nb_step]; eauto.
+Qed.
+
+Lemma no_bad_call_holds : forall c h0 sc s, lk_ntest c = true -> lk_clear c = true ->
+  reach c h0 sc s -> ~ In EBadCall (log s) /\ ~ In EJoinThrow (log s).
+Proof.
+  intros c h0 sc s A B H. split; [exact (nb_log s (reach_nb _ _ _ _ A B H))|].
+  (* the future never holds an exception *)
+  assert (X : reach c h0 sc s /\ wexc s = false /\ ~ In EJoinThrow (log s)); [|tauto].
+  eapply reach_invariant with (P := fun s => reach c h0 sc s /\ wexc s = false /\ ~ In EJoinThrow (log s)); eauto.
+  - split; [apply reach_init|cbn; auto].
+  - intros s0 t s1 (R0 & W0 & J0) Hs. split; [eapply reach_step; eauto|].
+    pose proof (nb_thr s0 (reach_nb _ _ _ _ A B R0)) as Hthr.
+    destruct t; step_unfold Hs.
+    + split_step Hs; finish_step Hs; try (destruct rs); cbn in *; split; try assumption; try reflexivity;
+        try (intros [X|X]; [discriminate X|exact (J0 X)]); congruence.
+    + destruct (wpcs s0) as [p|] eqn:Ew; [|discriminate].
+      destruct p as [|m [| |]| | | | | |]; unfold free_for, release_w in Hs;
+        split_step Hs; finish_step Hs; cbn in *; split; try assumption; try reflexivity;
+        try (intros [X|X]; [discriminate X|exact (J0 X)]); congruence.
+Qed.
